@@ -29,7 +29,7 @@ let () =
        let r = ref { rest = bytes_of_hex t.(1); rerr = false; scratch = List.init 8 (fun _ -> N0) } in
        let total = List.length (!r).rest in
        let outs = List.map (fun i ->
-           let (v, r') = st_read_sem coq_ErrorReader_Read streams.(int_of_string i) !r in
+           let (v, r') = st_read_sem errorReader_Read streams.(int_of_string i) !r in
            r := r'; out_to_s rv_to_s v) (split_on ',' t.(2)) in
        Printf.printf "%s | consumed=%d err=%b\n" (String.concat " ; " outs) (total - List.length (!r).rest) (!r).rerr
      | "TW" ->
